@@ -890,6 +890,8 @@ class Walker:
             fr.bb = t["t"]
             return True
         if ev is not None and ev.kind == "mark":
+            # a resume point: falls through, emits nothing (kept in the trace for the rules about RESUME)
+            st.trace.append(Item("mark", ("s", "mark"), ("unit",), fr.fn, t.get("ln"), st.after_jump, dict(st.loops)))
             fr.bb = t["t"]
             return True
         inline = None
